@@ -475,9 +475,19 @@ class NTAG21x(tt2.Type2Tag):
 
         try:
             rsp = self.transceive(b"\x1B" + key[0:4])
-            return rsp == key[4:6]
+            if rsp == key[4:6]:
+                return True
         except tt2.Type2TagCommandError:
-            return False
+            pass
+
+        # A refused password is answered with NAK (which some drivers
+        # report as a timeout) and the tag returns to the idle state.
+        # Select it again, as for any other NAK response, to not have
+        # all further commands (e.g. authenticate with another
+        # password) time out.
+        self.target.sel_req = self.target.sdd_res[:]
+        self._target = self.clf.sense(self.target)
+        return False
 
     def _dump(self, stop, footer):
         lines = super(NTAG21x, self)._dump(stop)
